@@ -62,6 +62,9 @@ func checkC16(c *Check, a *Anchors) {
 	c08CycleVersionMissing(c, a)
 	lookupResultChecked(c, a)
 	reflectFieldsSettable(c, a)
+	containerValuesNonNil(c, a)
+	fieldNotClobberedOnError(c, a, "field-not-clobbered-on-error")
+	lockReleasedOnEveryExit(c, a, "lock-released-on-every-exit")
 	errorsNotSwallowed(c, a)
 	recursionReviewed(c, a, "recursion-reviewed") // termination of loading / merging / compiling: the recursions are the only unbounded construct besides the reviewed loops
 }
